@@ -186,13 +186,15 @@ fn main() {
     AVOID_NAMED_VOID.store(!d47_ok, std::sync::atomic::Ordering::Relaxed);
     MORE_BINDS.store(true, std::sync::atomic::Ordering::Relaxed);
 
-    // ---- known finding D27: two or-patterns side by side
-    {
+    // ---- D27 (repaired by b67d291): two or-patterns side by side; arms with several or-chains enter
+    //      the main stream while the implementation passes the probe
+    let d27_ok = {
         let src = "let t = (1, 4)\nlet r = match t {\n  (1 | 2, 3 | 4) -> 0\n  _ -> 1\n}\nprintln(r)\n";
-        let r = run_program(src);
-        if r.out.trim() != "0" {
-            ctx.known_findings.push("D27".into());
-        }
+        run_program(src).out.trim() == "0"
+    };
+    ctx.count(&format!("probe:D27:{}", if d27_ok { "agrees" } else { "still-fails" }));
+    if !d27_ok {
+        ctx.spec_fail("D27 regression: `match (1, 4) { (1 | 2, 3 | 4) -> 0  _ -> 1 }` does not take arm 0".to_string());
     }
 
     let mut jobs: Vec<Job> = vec![];
@@ -232,10 +234,12 @@ fn main() {
         if arms.is_empty() {
             continue;
         }
-        // D27: at most one or-chain per arm in the main stream
         if arms.iter().any(|p| or_chains(p) > 1) {
-            ctx.count("skipped:D27-shape");
-            continue;
+            if !d27_ok {
+                ctx.count("skipped:D27-shape");
+                continue;
+            }
+            ctx.count("with-several-or-chains");
         }
         made += 1;
         let (with_or, with_bind) = (arms.iter().any(has_or), arms.iter().any(|p| { let mut v = vec![]; bound_vars(&u, p, &ty, &mut v); !v.is_empty() }));
